@@ -386,24 +386,32 @@ theorem unrelated_definition_eval (env : Env) (r : Resolver) (k : Nat) (z : Stri
     rw [(unrelated_definition_lookup r k z v n (hne n hn) c).2]
 
 
+/-- the names a definition of `z` goes by once named scopes have exported it: `z`, `s.z`, `t.s.z`, … -/
+def Qual (z n : String) : Prop := n = z ∨ ∃ p, n = p ++ "." ++ z
+
+theorem qual_closed (z : String) : ∀ s n, Qual z n → Qual z (s ++ "." ++ n) := by
+  intro s n h
+  rcases h with rfl | ⟨p, rfl⟩
+  · exact Or.inr ⟨s, rfl⟩
+  · exact Or.inr ⟨s ++ "." ++ p, by simp [String.append_assoc]⟩
+
 open Unrel in
-/-- **adding an unrelated definition does not change the output** (programs without named scopes): for every node list
-    `a ++ b` none of whose nodes mentions `z` (`FreeN`: no expression of it names `z`, it is not the label / included binary
-    `z`), every position in it and every resolver state without named scopes — whatever the nesting of blocks, macro
-    applications and loop iterations around that position — the node list with one more definition `z = v` inserted there
-    gives the writer exactly the same `write_block` calls (or raises the same exception) as the node list without it.
-    `Unrel.output` is what `Program.resolve_labels` followed by `Program.emit` hands to the writer (the tail of
-    `Model/Program.assemble`). -/
+/-- **adding an unrelated definition does not change the output**: for every node list `a ++ b` none of whose nodes
+    mentions `z` or a qualified form of it (`FreeN (Qual z)`: no expression names `z`, `s.z`, …; no label / included binary
+    is called so), every position in it, every value `v` and every resolver state (any nesting of blocks, macro
+    applications, loop iterations and *named scopes* around that position; each scope's symbol table holding a name once, as
+    a `dict` does), the node list with one more definition `z = v` inserted there gives the writer exactly the same
+    `write_block` calls — or raises the same exception — as the node list without it.  `Unrel.output` is what
+    `Program.resolve_labels` followed by `Program.emit` hands to the writer (the tail of `Model/Program.assemble`). -/
 theorem unrelated_definition_output (env : Env) (z : String) (v : Int) (a b : List Node)
-    (hf : ∀ n ∈ a ++ b, FreeN z n) (r : Resolver)
-    (hk : ∀ i name, (r.scopes.getD i default).kind ≠ .named name) :
+    (hf : ∀ n ∈ a ++ b, FreeN (Qual z) n) (r : Resolver)
+    (hk : ∀ i, NodupKeys (r.scopes.getD i default).symbols) :
     output env (a ++ Node.symbolConst z v :: b) r = output env (a ++ b) r :=
-  output_insert env v a b hf r hk
+  output_insert (qual_closed z) env z (Or.inl rfl) v a b hf r hk
 
-/-- non-vacuity: nodes that do not mention `z`, and the scope kinds a program without `.scope` has -/
-example : Unrel.FreeN "z" (Node.ascii "hi") ∧ Unrel.FreeN "z" (Node.label "x") ∧ Unrel.FreeN "z" Node.scopeEnter ∧
-    (∀ name, ScopeKind.plain ≠ .named name) ∧ (∀ name, ScopeKind.internal ≠ .named name) :=
-  ⟨trivial, by show "x" ≠ "z"; decide, trivial, fun _ h => ScopeKind.noConfusion h, fun _ h => ScopeKind.noConfusion h⟩
-
+/-- non-vacuity: nodes that do not mention `z`; the symbol tables a fresh resolver starts with hold no name twice -/
+example : Unrel.FreeN (Qual "z") (Node.ascii "hi") ∧ Unrel.FreeN (Qual "z") Node.scopeEnter ∧
+    Unrel.NodupKeys ([] : List (String × Int)) ∧ Unrel.NodupKeys (ainsert "a" 1 (ainsert "b" 2 ([] : List (String × Int)))) :=
+  ⟨trivial, trivial, List.nodup_nil, Unrel.nodup_ainsert _ _ _ (Unrel.nodup_ainsert _ _ _ List.nodup_nil)⟩
 
 end A816.C08
